@@ -105,15 +105,20 @@ def run (j : Json) : Except String Json := do
     | .error _ => true) &&
     -- argument-position / Fill containers: the rebuilt value is the one computed from the current target
     (if hasArgContainer (fuelFor c.spec) c.spec then resEq mres c.implRes else true)
+  -- a lazily evaluated stream (Iter) is evaluated, whenever it is consumed, in the mode and scope of
+  -- the site where it was written: the result is the one of the lexical model (c08_mode_lexical
+  -- covers the model's probes; mode-sensitive literals inside the stream show in the result)
+  let lazyOK := if hasIterF fuel c.spec then resEq mres c.implRes else true
   let mprobes := probesOf mlog
   -- identity of rebuilt containers (observed by the harness; absent fields = not observed)
   let fresh : FreshObs :=
     { noSpecObject := (j.getObjValAs? Bool "impl_fresh").toOption.getD true,
       rerunSame := (j.getObjValAs? Bool "impl_rerun_same").toOption.getD true }
-  return Json.mkObj [("agree", agree), ("holds", modesOK && shapeOK && checkFresh fresh),
+  return Json.mkObj [("agree", agree), ("holds", modesOK && shapeOK && lazyOK && checkFresh fresh),
     ("why", if !modesOK then "a probe recorded a mode that is not the static mode of its position"
             else if !fresh.noSpecObject then "a container of the result (or an argument handed to a callable) is the spec's own object, not a rebuilt one"
             else if !fresh.rerunSame then "the same spec evaluated again after the first result was mutated gave a different result: evaluations share mutable state"
+            else if !lazyOK then "a lazily evaluated stream (Iter) built under a mode wrapper was not evaluated in the mode of the place where it is written"
             else if !shapeOK then "a Fill / argument-position container was not rebuilt with the same shape from the values of its T/Spec leaves for the current target" else ""),
     ("model", Json.mkObj [("res", resToJson mres), ("log", Json.arr mlogJ.toArray)]),
     ("static", Json.arr ((annotF fuel .auto c.spec).map (fun x => Json.arr #[toJson x.1, Json.str (modeName x.2)])).toArray),
